@@ -20,6 +20,7 @@ import pickle
 import shutil
 import subprocess
 import sys
+import warnings
 
 import optree
 
@@ -57,6 +58,9 @@ EXPECTED_PROBES = ('producer:2', 'producer:3', 'derived:wide', 'rejected-load-be
 HISTORIES = ('same-process', 'gc-between', 'drift-unregister', 'drift-reregister-same', 'drift-reregister-other', 'drift-global-only', 'restart-same',
              'restart-missing', 'restart-other-ns')
 CLS = {c.__name__: c for c in U.CUSTOM_CLASSES}
+# classes the engine would treat as namedtuple / struct sequence by itself, REGISTERED as custom nodes in some runs: when such a
+# registration is missing at load time the pickle must be refused, not quietly re-read as a plain namedtuple / struct sequence
+CLS.update({'NTM': U.NTM, 'struct_time': U.STRUCTSEQ_TYPES[0]})
 
 
 def tier_config(tier):
@@ -115,9 +119,17 @@ def run_job(job, io):
             ns2 = 'alt' if ns != 'alt' else None
             reg_log.append((cls.__name__, ns2, tape.draw(4, 'style2'), rid))
             rid += 1
+    for extra in ('NTM', 'struct_time'):
+        if tape.draw(3, 'reg-ntlike') == 2:
+            reg_log.append((extra, (None, 'ns', 'ns', 'alt')[tape.draw(4, 'reg-ns-ntlike')], (0, 2)[tape.draw(2, 'style-ntlike')], rid))  # styles without custom entries: the default entry type of a namedtuple indexes by position
+            rid += 1
+            probes['registered-ntlike:' + extra] += 1
+    wrap_ntm = any(cn == 'NTM' for cn, _, _, _ in reg_log)
     for (cname, ns, style, r) in reg_log:
         f = U.Funcs(CLS[cname], r, style)
-        optree.register_pytree_node(CLS[cname], f.flatten, f.unflatten, namespace=GLOBAL if ns is None else ns)
+        with warnings.catch_warnings():
+            warnings.simplefilter('ignore')  # registering a namedtuple / struct-sequence class warns
+            optree.register_pytree_node(CLS[cname], f.flatten, f.unflatten, namespace=GLOBAL if ns is None else ns)
         live[(cname, ns)] = f
     history = HISTORIES[tape.draw(len(HISTORIES), 'history')]
     if job.get('_warm') and history.startswith('restart'):
@@ -132,6 +144,8 @@ def run_job(job, io):
         tree_seed = tape.draw(1 << 30, 'tree-seed')
         budget = 2 + tape.draw(38, 'budget')
         tree = gen.gen_tree(Tape(seed=tree_seed), budget, ctx)
+        if wrap_ntm:
+            tree = [tree, U.NTM(U.Leaf(90001), [U.Leaf(90002)])]
         nil = bool(tape.draw(2, 'nil'))
         ns = ('', 'ns', 'ns', 'alt', 'unknown')[tape.draw(5, 'ns')]
         mode_ns = (None, None, ns, '')[tape.draw(4, 'mode')]
@@ -193,7 +207,7 @@ def run_job(job, io):
         # which custom registrations does this spec mention?
         mentions = set()
         for x in walk(tree):
-            if isinstance(x, U.Node):
+            if isinstance(x, U.Node) or type(x).__name__ in ('NTM', 'struct_time'):
                 cn = type(x).__name__
                 if (cn, ns if ns else None) in live or (cn, None) in live:
                     mentions.add(cn)
@@ -218,7 +232,7 @@ def run_job(job, io):
             continue
         obs = observe(spec)
         regmap_dump = {k: f.rid for k, f in live.items()}
-        bindings = {type(x).__name__: binding(regmap_dump, type(x).__name__, ns) for x in walk(tree) if isinstance(x, U.Node)}
+        bindings = {type(x).__name__: binding(regmap_dump, type(x).__name__, ns) for x in walk(tree) if isinstance(x, U.Node) or type(x).__name__ in ('NTM', 'struct_time')}
         items.append({'derived': derived, 'bindings': bindings, 'id': ti, 'tree': tree, 'leaves': leaves, 'spec': spec, 'obs': obs, 'data': data, 'nil': nil, 'ns': ns, 'mode_ns': mode_ns,
                       'load_mode_ns': load_mode_ns, 'proto': proto, 'mentions': mentions, 'tree_seed': tree_seed, 'budget': budget,
                       'kinds': list(ctx.kinds), 'key_styles': list(ctx.key_styles), 'custom': [c.__name__ for c in ctx.custom_classes],
@@ -283,17 +297,17 @@ def run_job(job, io):
             del live[(cname, ns0)]
             drifted = (cname, ns0)
             if history == 'drift-reregister-same':
-                optree.register_pytree_node(CLS[cname], f.flatten, f.unflatten, namespace=GLOBAL if ns0 is None else ns0)
+                _quiet_register(CLS[cname], f, GLOBAL if ns0 is None else ns0)
                 live[(cname, ns0)] = f
             elif history == 'drift-reregister-other':
                 # same metadata shape (same rid and style) but NEW callables: a spec loaded afterwards must be bound to them
                 f2 = U.Funcs(CLS[cname], f.rid, f.style)
                 f2.generation = 2
-                optree.register_pytree_node(CLS[cname], f2.flatten, f2.unflatten, namespace=GLOBAL if ns0 is None else ns0)
+                _quiet_register(CLS[cname], f2, GLOBAL if ns0 is None else ns0)
                 live[(cname, ns0)] = f2
             elif history == 'drift-global-only':
                 if ns0 is not None and (cname, None) not in live:
-                    optree.register_pytree_node(CLS[cname], f.flatten, f.unflatten, namespace=GLOBAL)
+                    _quiet_register(CLS[cname], f, GLOBAL)
                     live[(cname, None)] = f
             oplog.append('drift %s %r' % drifted)
         if tape.draw(2, 'rejected-loads'):
@@ -418,6 +432,7 @@ def run_job(job, io):
             blob_items.append({k: it[k] for k in ('derived', 'id', 'data', 'nil', 'ns', 'mode_ns', 'load_mode_ns', 'proto', 'tree_seed', 'budget', 'kinds',
                                                   'key_styles', 'custom')})
             blob_items[-1]['gc'] = bool(tape.draw(2, 'loader-gc'))
+            blob_items[-1]['wrap_ntm'] = wrap_ntm
         rundir = os.path.join(B.CACHE, 'run-%d' % os.getpid())
         os.makedirs(rundir, exist_ok=True)
         try:
@@ -486,6 +501,12 @@ def run_job(job, io):
 
 
 GLOBAL_MARK = '<<global>>'
+
+
+def _quiet_register(cls, f, namespace):
+    with warnings.catch_warnings():
+        warnings.simplefilter('ignore')
+        optree.register_pytree_node(cls, f.flatten, f.unflatten, namespace=namespace)
 
 
 def binding(regmap, cname, ns):
